@@ -1,4 +1,4 @@
 /- C19: KLL sketch, value semantics and allocator discipline – the contracts consumed by the world-level proof.
    Parts: LifeKllAux (generic steps), A (definitions, locality), B (ctor, dtor), C (copy/move ctor),
    D (assignments), E (serialize, query), F (round trip), G–J (compaction machinery), K (update), L… (merge). -/
-import DSProofs.Lemmas.LifeKllN
+import DSProofs.Lemmas.LifeKllS
